@@ -78,6 +78,13 @@ class Node:
         return f"<{self.id}:{self.kind}:{self.lineno}>"
 
 
+def _positive(test: ast.AST, pol: bool, t: "Node"):
+    """(test, polarity) with leading negations folded into the polarity: (`not c`, True) is reported as (`c`, False)."""
+    while isinstance(test, ast.UnaryOp) and isinstance(test.op, ast.Not):
+        test, pol = test.operand, not pol
+    return (test, pol, t)
+
+
 def _may_raise(node: Node) -> bool:
     if node.kind in ("entry", "exit", "rexit", "join"):
         return False
@@ -484,9 +491,9 @@ class CFG:
             fr = self._region(others, t)
             in_t, in_f = n.id in tr, n.id in fr
             if in_t and not in_f:
-                out.append((t.ast, True, t))
+                out.append(_positive(t.ast, True, t))
             elif in_f and not in_t:
-                out.append((t.ast, False, t))
+                out.append(_positive(t.ast, False, t))
         out.sort(key=lambda x: x[2].lineno)
         return out
 
